@@ -217,8 +217,26 @@ pub fn digest_collisions() -> Vec<Case> {
     out
 }
 
+pub fn check_load(sh: &Shared, c: &c06::LoadCase) -> Check {
+    sh.evals((c.threads * c.rounds * 2) as u64);
+    sh.nontrivial(fp(c));
+    sh.class(&format!("under-load/{}x{}", c.threads, c.depth));
+    let wrong: Vec<String> = c06::under_load(c, true).into_iter().filter(|w| w.contains("hash") || w.contains("HashSet") || w.contains("panicked")).collect();
+    if !wrong.is_empty() {
+        fail!("hash:unstable-under-load", "{} threads × depth {} × {} rounds: {} wrong answers, e.g. {}", c.threads, c.depth, c.rounds, wrong.len(), wrong[0]);
+    }
+    Ok(())
+}
+
 pub fn streams() -> Vec<Box<dyn AnyStream>> {
     vec![
+        Box::new(Stream::<c06::LoadCase> {
+            name: "under-load",
+            quick: 0,
+            thorough: 0,
+            source: Source::Enum(Box::new(|_| Box::new(c06::load_cases().into_iter()))),
+            check: Box::new(check_load),
+        }),
         Box::new(Stream::<u8> {
             name: "small-universe",
             quick: 0,
